@@ -287,6 +287,8 @@ def run_replay(binp, cases, name, jobs=None, per_case_timeout=60, fresh_process=
     missing = [c["id"] for c in cases if c["id"] not in results]
     if missing:
         raise ToolError(f"harness produced no result for {len(missing)} cases in {name} (first {missing[:3]})")
+    if not os.environ.get("VERIF_KEEP"):
+        shutil.rmtree(wd, ignore_errors=True)       # case/observation files can be gigabytes in the thorough tier
     return results
 
 
@@ -667,3 +669,19 @@ def build_cli():
     log(f"[build] CLIs in {time.time() - t0:.1f}s")
     _cli["dir"] = os.path.join(tdir, "debug")
     return _cli["dir"]
+
+
+def apalache(name, module_path, init, inv, length, timeout=900):
+    """Runs apalache-mc check; returns True iff it reports no error (used for inductive-invariant obligations)."""
+    wd = os.path.join(WORK, "apalache", name)
+    shutil.rmtree(wd, ignore_errors=True)
+    os.makedirs(wd, exist_ok=True)
+    cmd = ["apalache-mc", "check", f"--init={init}", f"--inv={inv}", f"--length={length}", f"--out-dir={wd}", module_path]
+    try:
+        p = subprocess.run(cmd, cwd=wd, stdout=subprocess.PIPE, stderr=subprocess.STDOUT, text=True, timeout=timeout)
+    except subprocess.TimeoutExpired:
+        raise ToolError(f"apalache timeout on {name}")
+    ok = "EXITCODE: OK" in p.stdout
+    if not ok and "EXITCODE: ERROR (12)" not in p.stdout and "violat" not in p.stdout.lower():
+        raise ToolError(f"apalache failed on {name}:\n" + p.stdout[-1500:])
+    return ok
